@@ -162,7 +162,7 @@ pub fn plan(prop: &str, tier: &str) -> (PropMeta, Vec<Job>) {
 
 pub fn factory(name: &str, _cfg: &NodeCfg) -> Box<dyn COracle> {
     match name {
-        "C05" => Box::new(C05 { before: None }),
+        "C05" => Box::new(C05 { before: None, creds_before: None }),
         "C06" => Box::new(C06 { m: Model::default(), prev: None, prev_dirs: vec![] }),
         _ => panic!("unknown oracle {name}"),
     }
@@ -183,7 +183,8 @@ pub fn replay(prop: &str, r: &Value) -> Vec<Violation> {
     let mut res = JobResult::default();
     let mut o = if prop == "C10" { super::credp::factory(prop, &cfg) } else { factory(prop, &cfg) };
     let http = r["http"].as_bool().unwrap_or(false);
-    run_chistory(prop, &scratch, &tpl, http, &layer, &prelude, &hist, 0, o.as_mut(), &mut res, false, None).into_iter().collect()
+    let http_probe = r["http_probe"].as_bool().unwrap_or(false);
+    run_chistory(prop, &scratch, &tpl, http, http_probe, &layer, &prelude, &hist, 0, o.as_mut(), &mut res, false, None).into_iter().collect()
 }
 
 /// First path at which two JSON values differ.
@@ -289,6 +290,28 @@ fn strip_numbers(msg: &str) -> String {
 
 pub struct C05 {
     before: Option<Value>,
+    /// which (user, password) pairs logged in right before the restart (password hashes are salted and
+    /// re-computed, so "the same password" can only be observed by trying it)
+    creds_before: Option<Vec<(String, String, bool)>>,
+}
+
+/// Tries every user of the catalogue with every password the users layer ever sets.
+fn login_matrix(w: &mut CatWorld, snap: &Value) -> Result<Vec<(String, String, bool)>, String> {
+    let mut out = Vec::new();
+    let Some(users) = snap["users"].as_object() else { return Ok(out) };
+    if users.len() < 2 {
+        return Ok(out);
+    }
+    for u in users.values() {
+        let Some(name) = u["username"].as_str() else { continue };
+        if name == "iggy" {
+            continue;
+        }
+        for pw in ["pw1", "pw2"] {
+            out.push((name.to_string(), pw.to_string(), w.try_login(name, pw)?));
+        }
+    }
+    Ok(out)
 }
 
 impl COracle for C05 {
@@ -308,6 +331,20 @@ impl COracle for C05 {
             if let Some(d) = first_diff(before, &after, "") {
                 return Err(format!("catalogue before the restart vs after it differs at {d}"));
             }
+            if let Some(cb) = self.creds_before.take() {
+                let ca = login_matrix(w, &after)?;
+                if !ca.is_empty() {
+                    ctx.res.bump("login_matrices_compared");
+                }
+                for (b, a) in cb.iter().zip(ca.iter()) {
+                    if b != a {
+                        return Err(format!("login of user '{}' with password '{}' was {} before the restart and is {} after it", b.0, b.1, if b.2 { "accepted" } else { "refused" }, if a.2 { "accepted" } else { "refused" }));
+                    }
+                }
+            }
+            if ctx.next_is_restart {
+                self.creds_before = Some(login_matrix(w, &after)?);
+            }
             self.before = Some(after);
             return Ok(());
         }
@@ -319,7 +356,9 @@ impl COracle for C05 {
                 return Err(format!("command panicked: {}", out.err));
             }
         }
-        self.before = Some(w.snapshot(false)?);
+        let snap = w.snapshot(false)?;
+        self.creds_before = if ctx.next_is_restart { Some(login_matrix(w, &snap)?) } else { None };
+        self.before = Some(snap);
         Ok(())
     }
     fn classify(&self, layer: &str, hist: &[COp], msg: &str) -> String {
